@@ -64,6 +64,9 @@ func TestVerif_C03_Dual(t *testing.T) {
 			if verifsim.Chance(t, "cancel", 45) {
 				sc.CancelMs = rapid.IntRange(1, 15000).Draw(t, "cancelMs")
 			}
+			if sc.CancelMs == 0 && verifsim.Chance(t, "preCancel", 10) {
+				sc.CancelMs = -1 // cancelled before the call
+			}
 			sc.Abandon = sc.CancelMs > 0 && rapid.Bool().Draw(t, "abandon")
 			sc.SlowReadMs = rapid.SampledFrom([]int{0, 0, 40, 700}).Draw(t, "slowRead")
 			return sc
@@ -135,6 +138,11 @@ func TestVerif_C03_Dual(t *testing.T) {
 				}
 				done := make(chan struct{})
 				started = now()
+				if s3.CancelMs < 0 {
+					// the context is already cancelled when the operation is called
+					cancelled = started + 1
+					cancel()
+				}
 				go func() {
 					defer close(done)
 					defer func() {
